@@ -41,14 +41,24 @@ ASequence(calls) == /\ out.op = "init" /\ c.kind = "sequence"
               facts |-> [i \in 1..Len(calls) |-> [A |-> calls[i][2], det |-> Det(calls[i][2]), inv |-> Inverse(calls[i][2]),
                                                   x |-> Solve(calls[i][2], RHS1(2))]]]
    /\ UNCHANGED c
+HV == <<<<1, 2, 3>>, <<-2, 0, 5>>, <<3, 4>>, <<-1, 2>>, <<0, 0, 2>>, <<4, -3, 0>>, <<2, 5>>>>
 AHelpers == /\ out.op = "init" /\ c.kind = "helpers"
    /\ out' = [op |-> "helpers",
               binom |-> [n \in 1..9 |-> [k \in 1..(n + 1) |-> Binom(n, k - 1)]],
               linspace |-> [num \in 1..6 |-> Linspace(R(-1, 2), R(5, 4), num)],
               matmul |-> MatMulI(<<<<1, 2, 3>>, <<4, 5, 6>>>>, <<<<1, 0>>, <<2, -1>>, <<0, 3>>>>),
               cross |-> VCross(VInts(<<1, 2, 3>>), VInts(<<-2, 0, 5>>)), dot |-> VDot(VInts(<<1, 2, 3>>), VInts(<<-2, 0, 5>>)),
-              norm2 |-> VNorm2(VInts(<<3, 4, 12>>))]
+              norm2 |-> VNorm2(VInts(<<3, 4, 12>>)),
+              \* every ordered pair of a small family of planar and spatial vectors (a planar vector is (x, y, 0))
+              pairs |-> [i \in 1..(Len(HV) * Len(HV)) |->
+                          LET a == HV[((i - 1) \div Len(HV)) + 1]  b == HV[((i - 1) % Len(HV)) + 1]
+                              pad(v) == IF Len(v) = 2 THEN VInts(v) \o <<Zero>> ELSE VInts(v) IN
+                          [a |-> a, b |-> b, cross |-> VCross(pad(a), pad(b)), dot |-> IF Len(a) = Len(b) THEN VDot(VInts(a), VInts(b)) ELSE Zero,
+                           norm2 |-> VNorm2(VInts(a))]]]
    /\ UNCHANGED c
+T_CrossOrth == out.op = "helpers" => \A i \in 1..Len(out.pairs) :
+   LET r == out.pairs[i]  pad(v) == IF Len(v) = 2 THEN VInts(v) \o <<Zero>> ELSE VInts(v) IN
+   VDot(r.cross, pad(r.a)) = Zero /\ VDot(r.cross, pad(r.b)) = Zero
 CallSeqs(n) == [1..n -> Calls \X SeqMats]
 Next == \/ c.kind = "matrix" /\ \E B \in {b \in RHS(Len(c.A)) : TRUE} : AMatrix(B)
         \/ c.kind = "sequence" /\ \E s \in CallSeqs(c.n) : ASequence(s)
